@@ -23,6 +23,7 @@ CONSTANTS
   IndexFromSeq = TRUE
   IgnoreStaleAck = FALSE
   FinalAckAnyInWindow = TRUE
+  EchoClientAbort = TRUE
   IdleAcceptsAnySeq = TRUE
 INVARIANT AtMostOneOutcome
 INVARIANT ExactlyOneAtQuiescence
